@@ -64,6 +64,20 @@ class Verifier(Executor):
         """-> (count, bind(state, k)) for a for-loop"""
         it = self.eval(node.iter, st)
         tgt = node.target
+        if isinstance(it, tuple) and it and it[0] == "range" and len(it) == 4:
+            lo, hi, step = as_int(it[1]), as_int(it[2]), as_int(it[3])
+            if not (isinstance(step, int) and step != 0):
+                raise Unsupported("range with a symbolic step")
+            if not (isinstance(lo, int) and isinstance(hi, int)):
+                cnt = self.floordiv(st, (hi - lo + (step - 1 if step > 0 else step + 1)), step)
+                n = z3.If(zint(cnt) >= 0, zint(cnt), 0)
+            else:
+                n = len(range(lo, hi, step))
+
+            def bind(s, k, lo=lo, step=step):
+                self.assign(tgt, lo + k * step, s)
+
+            return n, bind
         if isinstance(it, tuple) and it and it[0] == "range":
             lo, hi = (0, it[1]) if len(it) == 2 else (it[1], it[2])
             lo, hi = as_int(lo), as_int(hi)
